@@ -1,5 +1,6 @@
 (* C05 — pack, unpack and token strings are mutually inverse and compositional (token level; PackProofs.v).
-   The string front end is tied by correspondence and a grammar oracle (partial, see DESIGN.md). *)
+   The string front end: expand_brackets is modelled on character lists (Tokenizer.v) and run against utils.expand_brackets; the rest of the
+   tokenizer is tied by correspondence and a grammar oracle (partial, see DESIGN.md). *)
 From BS Require Import Prims BitsCore Golomb IntCodec Mutators Search Stream Pack PackProofs SeqProofs.
 Open Scope Z_scope.
 Theorem C05_pack_length_is_sum_of_token_lengths : forall toks vals b total,
@@ -27,3 +28,51 @@ Print Assumptions C05_formats_compose.
 Print Assumptions C05_factor_is_repetition.
 Print Assumptions C05_too_few_values_rejected.
 Print Assumptions C05_too_many_values_rejected.
+
+(* ------------------------------------------------------------------------------------------------------------------------------------
+   utils.expand_brackets (Tokenizer.v): the Python loop - find the first '(', scan to its matching ')', look for a `digits*` factor in front
+   of it, splice - on lists of characters, with explicit fuel (one unit per pass). [expand_body] is one pass; [body_eq] proves it equal to
+   a list-level specification [step_spec] (s = P ( B ) R with P bracket-free and B up to the matching bracket; no '*' at the end of P:
+   P B R; '*' without digits: ValueError; digits d before the '*': P0 ++ copies (int d) B ++ R). *)
+From BS Require Import Tokenizer.
+From Coq Require Import Ascii String.
+Local Open Scope list_scope.
+Local Open Scope nat_scope.
+(* the loop terminates on EVERY string: some number of passes suffices, every larger fuel gives the same outcome, never OutOfFuel. (No bound
+   in the length or the number of brackets exists: factors multiply - "9*(9*(9*(a)))" needs 92 passes - and digit runs can merge into new
+   factors; for formats without nested brackets `number of '(' + 1` passes suffice.) *)
+Theorem C05_expand_brackets_terminates : forall s : str, exists (n : nat) (r : res str), r <> Err OutOfFuel /\ (forall m : nat, n <= m -> expand_brackets m s = r).
+Proof. exact expand_terminates. Qed.
+Theorem C05_expand_brackets_fuel_flat : forall s : str, flat false s = true ->
+  exists r : res str, r <> Err OutOfFuel /\ (forall m : nat, S (count_open s) <= m -> expand_brackets m s = r).
+Proof. exact expand_fuel_flat. Qed.
+(* an expanded format has no '(' left, and no ')' either unless the input had a stray one *)
+Theorem C05_expanded_has_no_brackets : forall (n : nat) (s r : str), expand_brackets n s = Ok r -> noopen r = true /\ (lvl 1 s <> None -> noclose r = true).
+Proof. intros n s r H. split; [exact (expand_no_open n s r H)|intros L; exact (expand_no_close n s r L H)]. Qed.
+(* a format without brackets is left alone *)
+Theorem C05_expand_plain : forall (n : nat) (s : str), noopen s = true -> expand_brackets (S n) s = Ok s.
+Proof. exact expand_plain. Qed.
+(* "n*(f)" is f written n times (joined by commas; nothing for n = 0), for every decimal spelling of the factor incl. leading zeros *)
+Theorem C05_factor_is_repetition_of_text : forall (d f : str) (m : nat), alldig d = true -> d <> [] -> noopen f = true -> noclose f = true ->
+  expand_brackets (2 + m) (d ++ "*"%char :: "("%char :: f ++ [")"%char]) = Ok (copies (int_of d) f).
+Proof. exact expand_factor_flat. Qed.
+(* ... also when the body has (balanced) brackets of its own: n copies of the expanded body *)
+Theorem C05_factor_nested : forall (d g g' : str) (k m : nat), alldig d = true -> d <> [] -> balanced g -> expand_brackets k g = Ok g' ->
+  expand_brackets (2 + N.to_nat (int_of d) * k + m) (d ++ "*"%char :: "("%char :: g ++ [")"%char]) = Ok (copies (int_of d) g').
+Proof. exact expand_factor_nested. Qed.
+(* "f1, f2" expands to the expansion of f1, a comma, the expansion of f2 (and fails exactly when f2 fails), when f1 expands on its own *)
+Theorem C05_expansion_composes : forall (n1 n2 : nat) (s1 s2 r1 : str) (r : res str), expand_brackets n1 s1 = Ok r1 -> expand_brackets n2 s2 = r -> r <> Err OutOfFuel ->
+  expand_brackets (n1 + n2) (s1 ++ ","%char :: s2) = map_res (fun r2 : list ascii => r1 ++ ","%char :: r2) r.
+Proof. exact expand_compose. Qed.
+(* the token count of "n*(f)" is n times that of f *)
+Theorem C05_factor_token_count : forall (d f : str) (m : nat), alldig d = true -> d <> [] -> noopen f = true -> noclose f = true -> (0 < int_of d)%N ->
+  exists r : str, expand_brackets (2 + m) (d ++ "*"%char :: "("%char :: f ++ [")"%char]) = Ok r /\ List.length (split_commas r) = N.to_nat (int_of d) * List.length (split_commas f).
+Proof. exact factor_token_count. Qed.
+Print Assumptions C05_expand_brackets_terminates.
+Print Assumptions C05_expand_brackets_fuel_flat.
+Print Assumptions C05_expanded_has_no_brackets.
+Print Assumptions C05_expand_plain.
+Print Assumptions C05_factor_is_repetition_of_text.
+Print Assumptions C05_factor_nested.
+Print Assumptions C05_expansion_composes.
+Print Assumptions C05_factor_token_count.
